@@ -545,6 +545,11 @@ def check(ctx, rep):
 
     # ------------------------------------------------------------------ R20e
     body_writer_obligations(ctx, rep, "R20e")
+    # ------------------------------------------------------------------ R20g
+    rep.rule("R20g", "what the protocol writes reaches the socket - and fails - inside the connection handler's try: the handler's output file is "
+             "unbuffered (wbufsize 0, no buffering wrapper), or the handler flushes it before the try ends; a buffered remainder would be sent by "
+             "finish(), where a reset connection is reported by socketserver instead of being logged with the client's address", floor=1)
+    unbuffered_obligations(ctx, rep, "R20g")
     # ------------------------------------------------------------------ R20f
     rep.rule("R20f", "no context manager of the server swallows what is raised inside its block: __exit__ returns nothing (or False) on every path, "
              "generator-based managers re-raise - a failed write inside such a block would otherwise vanish unlogged", floor=0)
@@ -554,29 +559,196 @@ def check(ctx, rep):
             continue
         if f_.name in ("__exit__", "__aexit__") and f_.cls is not None:
             n_cm += 1
-            bad = []
-            for p_ in Walker(prog, ctx.resolver, fork_returns=True).run(f_, f_.cls):
-                if p_.kind == "return" and p_.value is not None:
-                    t_ = truth(p_.value)
-                    rv = [e for e in p_.events if e.kind == "return"]
-                    if t_ is not False and not (rv and (rv[-1].node.value is None)):
-                        bad.append(norm(rv[-1].node)[:50] if rv else "a value")
+            bad = exit_swallows(ctx, f_)
             rep.add("R20f", f"{f_.qualname}: lets exceptions through", not bad, ctx.where(f_),
                     "" if not bad else f"`{bad[0]}` can be true: whatever was raised inside the with block (a write to a client that has gone away) is then "
                     "swallowed - no error reply, no log line", key=f"R20f|{f_.qualname}")
-        if any((dotted(d_) or "").split(".")[-1] in ("contextmanager", "asynccontextmanager") for d_ in f_.node.decorator_list):
+        if is_generator_manager(f_):
             n_cm += 1
-            swallow = []
-            for tr in [x for x in ast.walk(f_.node) if isinstance(x, ast.Try)]:
-                if any(isinstance(y, (ast.Yield, ast.YieldFrom)) for b_ in tr.body for y in ast.walk(b_)):
-                    for h in tr.handlers:
-                        if not any(isinstance(y, ast.Raise) for y in ast.walk(h)):
-                            swallow.append(norm(h.type)[:40] if h.type is not None else "everything")
+            swallow = generator_manager_swallows(f_)
             rep.add("R20f", f"{f_.qualname}: lets exceptions through", not swallow, ctx.where(f_),
                     "" if not swallow else f"the manager catches {swallow[0]} around its yield without re-raising: what fails inside the with block vanishes",
                     key=f"R20f|{f_.qualname}")
     if not n_cm:
         rep.ok("R20f", "the server defines no context manager of its own", "pygopherd", "", key="R20f|none", nontrivial=False)
+
+
+def exit_swallows(ctx, f_):
+    """Return statements of an __exit__ method that can hand back a true value (= swallow what was raised in the block)."""
+    bad = []
+    for p_ in Walker(ctx.prog, ctx.resolver, fork_returns=True).run(f_, f_.cls):
+        if p_.kind == "return" and p_.value is not None:
+            t_ = truth(p_.value)
+            rv = [e for e in p_.events if e.kind == "return"]
+            if t_ is not False and not (rv and (rv[-1].node.value is None)):
+                bad.append(norm(rv[-1].node)[:50] if rv else "a value")
+    return bad
+
+
+def is_generator_manager(f_) -> bool:
+    return any((dotted(d_) or "").split(".")[-1] in ("contextmanager", "asynccontextmanager") for d_ in f_.node.decorator_list)
+
+
+def generator_manager_swallows(f_):
+    swallow = []
+    for tr in [x for x in ast.walk(f_.node) if isinstance(x, ast.Try)]:
+        if any(isinstance(y, (ast.Yield, ast.YieldFrom)) for b_ in tr.body for y in ast.walk(b_)):
+            for h in tr.handlers:
+                if not any(isinstance(y, ast.Raise) for y in ast.walk(h)):
+                    swallow.append(norm(h.type)[:40] if h.type is not None else "everything")
+    return swallow
+
+
+def _may_be_true(ctx, func, e) -> bool:
+    """Can this expression, used as the result of an exit callback, be true?  Syntactic, erring towards yes."""
+    if isinstance(e, ast.Constant):
+        return bool(e.value)
+    if isinstance(e, ast.BoolOp):
+        vals = [_may_be_true(ctx, func, v) for v in e.values]
+        return all(vals) if isinstance(e.op, ast.And) else any(vals)
+    if isinstance(e, ast.UnaryOp) and isinstance(e.op, ast.Not) and isinstance(e.operand, ast.Constant):
+        return not e.operand.value
+    if isinstance(e, ast.Call):
+        t = ctx.resolver.resolve(e, func)
+        if t is not None and t.kind == "repo" and t.funcs:
+            return any(_returns_may_be_true(ctx, f) for f in t.funcs)
+        d = dotted(e.func) or ""
+        if d in ("print", "os.unlink", "os.remove", "os.close", "logging.info") or d.split(".")[-1] in ("log", "close", "release", "append", "clear"):
+            return False
+    return True
+
+
+def _returns_may_be_true(ctx, f) -> bool:
+    for n in ast.walk(f.node):
+        if isinstance(n, ast.Return) and n.value is not None and _may_be_true(ctx, f, n.value):
+            return True
+    return False
+
+
+def with_swallows(ctx, func, wnode):
+    """Why an exception raised inside this with block may not leave it: [] when every manager lets it through.
+    contextlib.suppress, an ExitStack given an exit callback that can return true, a manager of the repo whose __exit__ can."""
+    prog = ctx.prog
+    out = []
+    for item in wnode.items:
+        ce = item.context_expr
+        if not isinstance(ce, ast.Call):
+            continue
+        last = (dotted(ce.func) or "").split(".")[-1]
+        if last == "suppress":
+            out.append(f"contextlib.suppress({', '.join(dotted(a) or norm(a) for a in ce.args)})")
+            continue
+        if last in ("ExitStack", "AsyncExitStack"):
+            if not isinstance(item.optional_vars, ast.Name):
+                continue
+            var = item.optional_vars.id
+            for c in ast.walk(wnode):
+                if not (isinstance(c, ast.Call) and isinstance(c.func, ast.Attribute) and isinstance(c.func.value, ast.Name) and c.func.value.id == var and c.args):
+                    continue
+                a = c.args[0]
+                if c.func.attr in ("push", "push_async_exit"):
+                    if isinstance(a, ast.Lambda):
+                        if _may_be_true(ctx, func, a.body):
+                            out.append(f"exit callback `{norm(a)[:70]}` pushed at line {c.lineno} can return a true value")
+                        continue
+                    d = dotted(a)
+                    res = prog.resolve_dotted(func.module, d) if d else None
+                    if res and res[0] == "func":
+                        if _returns_may_be_true(ctx, res[1]):
+                            out.append(f"exit callback {res[1].qualname} pushed at line {c.lineno} can return a true value")
+                    elif res and res[0] == "class":
+                        ex = prog.resolve_method(res[1], "__exit__")
+                        if ex is not None and exit_swallows(ctx, ex):
+                            out.append(f"{res[1].name}.__exit__ pushed at line {c.lineno} can return a true value")
+                    else:
+                        out.append(f"exit callback `{norm(a)[:50]}` pushed at line {c.lineno} is not known to return nothing")
+                elif c.func.attr in ("enter_context", "enter_async_context") and isinstance(a, ast.Call):
+                    fake = ast.With(items=[ast.withitem(context_expr=a, optional_vars=None)], body=[])
+                    out.extend(with_swallows(ctx, func, fake))
+            continue
+        t = ctx.resolver.resolve(ce, func)
+        if t is None:
+            continue
+        if t.kind == "ctor" and t.cls is not None:
+            ex = prog.resolve_method(t.cls, "__exit__")
+            if ex is not None:
+                bad = exit_swallows(ctx, ex)
+                if bad:
+                    out.append(f"{ex.qualname} can return a true value (`{bad[0]}`)")
+        elif t.kind == "repo":
+            for f in t.funcs:
+                if is_generator_manager(f):
+                    sw = generator_manager_swallows(f)
+                    if sw:
+                        out.append(f"{f.qualname} catches {sw[0]} around its yield without re-raising")
+    return out
+
+
+def unbuffered_obligations(ctx, rep, rule="R20g"):
+    prog = ctx.prog
+    rh = ctx.func("server.GopherRequestHandler.handle")
+    if rh is None or rh.cls is None:
+        rep.fail(rule, "GopherRequestHandler", detail="connection handler class not found")
+        return
+    buffered = []
+    for C in prog.mro(rh.cls):
+        if isinstance(C, str):
+            continue
+        v = C.attrs.get("wbufsize")
+        if v is not None:
+            val = None
+            try:
+                val = ast.literal_eval(v)
+            except Exception:
+                cv = _fold_const(v)
+                val = cv
+            if val != 0:
+                buffered.append(f"{C.name}.wbufsize = {norm(v)[:30]}")
+            break
+    for C in prog.mro(rh.cls):
+        if isinstance(C, str):
+            continue
+        for m in C.methods.values():
+            for n in ast.walk(m.node):
+                if isinstance(n, ast.Assign) and any(dotted(t) == "self.wfile" for t in n.targets) and isinstance(n.value, ast.Call):
+                    last = (dotted(n.value.func) or "").split(".")[-1]
+                    if last in ("BufferedWriter", "BufferedRWPair", "BufferedRandom", "TextIOWrapper"):
+                        buffered.append(f"{m.qualname} wraps the output file in {last}")
+                    elif last == "makefile":
+                        b = n.value.args[1] if len(n.value.args) > 1 else next((k.value for k in n.value.keywords if k.arg == "buffering"), None)
+                        if not (isinstance(b, ast.Constant) and b.value == 0):
+                            buffered.append(f"{m.qualname} opens the output file buffered ({norm(n.value)[:50]})")
+    flushed = False
+    for tr in [t for t in ast.walk(rh.node) if isinstance(t, ast.Try)]:
+        if not any(catches(h, "OSError") or catches(h, "Exception") for h in tr.handlers):
+            continue
+        for b in tr.body:
+            for n in ast.walk(b):
+                if isinstance(n, ast.Call) and dotted(n.func) == "self.wfile.flush":
+                    flushed = True
+    ok = not buffered or flushed
+    rep.add(rule, f"{rh.cls.name}: output file unbuffered, or flushed inside the try of handle()", ok, ctx.where(rh),
+            "" if ok else f"{buffered[0]}: the response collects in a buffer and is sent by finish(), outside the try of handle() - a connection "
+            "that fails then is reported by socketserver.handle_error (or kills the forked child) and never logged with the client's address",
+            key=f"{rule}|wbufsize")
+
+
+def _fold_const(node):
+    """Integer arithmetic on constants (16 * 1024, 1 << 14); None when it is anything else."""
+    import operator as _op
+
+    ops = {ast.Add: _op.add, ast.Sub: _op.sub, ast.Mult: _op.mul, ast.FloorDiv: _op.floordiv, ast.LShift: _op.lshift, ast.BitOr: _op.or_}
+    if isinstance(node, ast.Constant) and isinstance(node.value, int):
+        return node.value
+    if isinstance(node, ast.UnaryOp) and isinstance(node.op, ast.USub):
+        v = _fold_const(node.operand)
+        return -v if v is not None else None
+    if isinstance(node, ast.BinOp) and type(node.op) in ops:
+        a, b = _fold_const(node.left), _fold_const(node.right)
+        if a is None or b is None or (isinstance(node.op, ast.LShift) and not 0 <= b < 64) or (isinstance(node.op, ast.FloorDiv) and b == 0):
+            return None
+        return ops[type(node.op)](a, b)
+    return None
 
 
 class _PathObj:
@@ -586,12 +758,13 @@ class _PathObj:
         self.path = path
 
     def __repr__(self):
-        return f"<{self.path}>"
+        # (the text of an exception quotes the selector, which the client chooses: per cent signs and braces included)
+        return f"<{self.path}>" if self.path != "exception" else "<exception 100%.txt %s %(x)d {0} {x}>"
 
     __str__ = __repr__
 
     def __format__(self, spec):
-        return f"<{self.path}>"
+        return repr(self)
 
     def __bool__(self):
         return True
@@ -637,7 +810,8 @@ def _log_line_evaluation(ctx, lg, with_proto=True):
         if d in ("type",) and len(a) == 1 and path_of(a[0]):
             return Const(_PathObj(f"type({path_of(a[0])})"))
         if d in ("str", "repr") and len(a) == 1 and path_of(a[0]):
-            return Const(f"<{d}({path_of(a[0])})>")
+            # (the text of an exception quotes the selector, which the client chooses: per cent signs included)
+            return Const(f"<{d}({path_of(a[0])}) 100%.txt %s %(x)d>")
         if d.endswith("logger.log") and a:
             prev = st.facts.get("__logged")
             prev = prev.value if prev is not None and prev.kind == "const" else ()
@@ -661,6 +835,8 @@ def _log_line_evaluation(ctx, lg, with_proto=True):
         return None
     texts = []
     for p in paths:
+        if p.kind == "raise" and str(p.value) in ("TypeError", "ValueError", "KeyError", "IndexError"):
+            return [f"<log() raises {p.value}>"]
         if p.kind == "raise":
             return None
         lv = p.state.facts.get("__logged")
